@@ -82,10 +82,10 @@ def main(ctx):
             continue
         modes = [("obiconvert-file", [conv, "--max-cpu", "2", f["file"]], None),
                  ("obicount-file", [count, f["file"]], None)]
-        if f["codec"] == "gz" and f["fmt"] != "csv":
+        if f["codec"] == "gz" and f["fmt"] in ("fasta", "fastq"):
             modes.append(("obiconvert-stdin", [conv, "--max-cpu", "2"], f["file"]))
         # the format given on the command line: no sniffing, the chunk reader meets the fault in its first read
-        if f["fmt"] in ("fasta", "fastq") and f["size"] == "small":
+        if f["fmt"] in ("fasta", "fastq", "genbank", "embl") and f["size"] == "small":
             modes.append(("obiconvert-forced", [conv, "--max-cpu", "2", "--" + f["fmt"], f["file"]], None))
         # several input files: the faulted one next to an intact file of the same format (multi-file reader path)
         if kind != "none" and (len(evs) % 5 == 0):
